@@ -488,7 +488,8 @@ def gen_sharing(rng: random.Random) -> List[Dict[str, Any]]:
     """histories that leave the tree discipline or make the code raise: the model mirrors them,
     the oracle only judges the objects that still sit in exactly one container"""
     g = Gen(rng)
-    kind = rng.choice(['twice', 'two-parents', 'illtyped', 'nocoords', 'celltext', 'nomethod', 'reparent', 'emptytable'])
+    kind = rng.choice(['twice', 'two-parents', 'illtyped', 'nocoords', 'celltext', 'nomethod', 'reparent', 'emptytable',
+                       'cycle-self', 'cycle-ancestor', 'cycle-attach'])
     if kind == 'twice':
         l = g.line()
         r = g.add({'op': 'mkRegion', 'a': g.args('region'), 'lines': [l, l], 'regions': [], 'tables': []}, 'region', [l])
@@ -528,6 +529,28 @@ def gen_sharing(rng: random.Random) -> List[Dict[str, Any]]:
             c = g.kids[r1][0]
             g.ops.append({'op': 'setParent', 'c': c, 'p': r2})
             g.ops.append({'op': 'addChild', 'p': r2, 'c': c})
+    elif kind == 'cycle-self':
+        # add_child of the container itself: outside the discipline (Pre false), mirrored only; every later
+        # recursion over the structure (set_parentage, set_scan_id) runs into RecursionError in both worlds
+        r = g.region(rng.choice([0, 1]))
+        g.ops.append({'op': 'addChild', 'p': r, 'c': r})
+        g.ops.append(rng.choice([{'op': 'setParentage', 'p': r}, {'op': 'types', 'n': r}]))
+    elif kind == 'cycle-ancestor':
+        outer = g.region(rng.choice([1, 2]))
+        inner = [i for i in range(len(g.cls)) if g.cls[i] in ('region', 'column') and i != outer and g.below(i, outer)]
+        if inner:
+            p = rng.choice(inner)
+            g.ops.append({'op': 'addChild', 'p': p, 'c': outer})
+            if rng.random() < 0.6:
+                g.ops.append({'op': 'setParentage', 'p': rng.choice([p, outer])})
+            if rng.random() < 0.5:
+                g.add({'op': 'mkScan', 'a': g.args('scan'), 'lines': [], 'regions': [], 'tables': [], 'columns': [],
+                       'pages': []}, 'scan', [])
+    elif kind == 'cycle-attach':
+        r = g.add({'op': 'mkRegion', 'a': g.args('region'), 'lines': [], 'regions': [], 'tables': []}, 'region', [])
+        g.ops.append({'op': 'attachRegions', 'p': r, 'cs': [r]})
+        if rng.random() < 0.5:
+            g.ops.append({'op': 'setParentage', 'p': r})
     else:
         t = g.add({'op': 'mkTable', 'a': g.args('table'), 'rows': []}, 'table', [])
         l = g.line()
@@ -770,6 +793,122 @@ def spec_to_history(spec: Dict[str, Any]):
     return ops, paths
 
 
+def spec_to_tree(spec: Dict[str, Any]):
+    """the parse spec as the document tree of the MODEL's parser history (Model/C02Hist.lean, `PScan.hist`), and the
+    paths of the parsed objects in the order that history creates them (a region before its children; the cells of a
+    table grouped by row, each row after its cells)"""
+    paths: List[Any] = []
+
+    def line(l, path):
+        kids = []
+        for i, w in enumerate(l['words']):
+            paths.append(path + [('words', i)])
+            kids.append({'kind': 'word', 'a': {'id': {'s': w['id']}, 'coords': w['coords'], 'text': w['text']}})
+        paths.append(path)
+        return {'kind': 'line', 'kids': kids,
+                'a': {'id': enc_val(l['id']), 'coords': l['coords'], 'text': l['text'], 'md': _custom_md(l['custom'])}}
+
+    def region(r, path):
+        md = _custom_md(r['custom'])
+        typ = [dec_val(v) for k, v in md if k == 'type']
+        paths.append(path)
+        out = {'a': {'id': enc_val(r['id']), 'coords': r['coords'], 'md': md}, 'add_type': typ[:1],
+               'lines_first': bool(r['lines_first'])}
+
+        def do_lines():
+            out['lines'] = [line(l, path + [('lines', i)]) for i, l in enumerate(r['lines'])]
+
+        def do_regions():
+            out['regions'] = [region(x, path + [('text_regions', i)]) for i, x in enumerate(r['regions'])]
+        if r['lines_first']:
+            do_lines(), do_regions()
+        else:
+            do_regions(), do_lines()
+        return out
+
+    def table(t, path):
+        md = _custom_md(t['custom'])
+        typ = [dec_val(v) for k, v in md if k == 'type']
+        paths.append(path)
+        row_order: List[int] = []
+        for c in t['cells']:
+            if c['row'] not in row_order:
+                row_order.append(c['row'])
+        rows = []
+        for ri, rv in enumerate(row_order):
+            cells = []
+            for ci, c in enumerate([x for x in t['cells'] if x['row'] == rv]):
+                cpath = path + [('rows', ri), ('cells', ci)]
+                ls = [line(l, cpath + [('lines', i)]) for i, l in enumerate(c['lines'])]
+                paths.append(cpath)
+                cells.append({'kind': 'cell', 'a': {'id': {'s': c['id']}, 'coords': c['coords']}, 'kids': ls})
+            paths.append(path + [('rows', ri)])
+            rows.append({'kind': 'row', 'a': {'id': enc_val(rv), 'coords': 0}, 'kids': cells})
+        return {'a': {'id': {'s': t['id']}, 'md': md}, 'add_type': typ[:1], 'rows': rows}
+
+    rs = [region(r, [('text_regions', i)]) for i, r in enumerate(spec['regions'])]
+    ts = [table(t, [('table_regions', i)]) for i, t in enumerate(spec['tables'])]
+    md = [['Creator', {'s': 'gen'}], ['scan_width', enc_val(4000)], ['scan_height', enc_val(3000)]]
+    sid = spec['image'] if spec['image'] is not None else spec['file']
+    paths.append([])
+    return {'a': {'id': {'s': sid}, 'md': md, 'coords': 0}, 'regions': rs, 'tables': ts, 'file': spec['file']}, paths
+
+
+def json_tree(j: Dict[str, Any]) -> Dict[str, Any]:
+    """the JSON dict as the document tree of the MODEL's JSON-builder history (`JTree.hist true`); children in the
+    order the builders construct them (the same order as `json_history` below)"""
+    def args(d, text=False):
+        a = {'id': enc_val(d['id']), 'dtype': [d['type']] if isinstance(d['type'], str) else list(d['type']),
+             'md': [[k, enc_val(v)] for k, v in d['metadata'].items()]}
+        if 'coords' in d:
+            a['coords'] = 0
+        if text:
+            a['text'] = d.get('text')
+        return a
+
+    def node(kind, d, kids, text=False, extra=False):
+        return {'kind': kind, 'extra': extra, 'a': args(d, text), 'kids': kids}
+
+    def line(d):
+        return node('line', d, [node('word', w, [], True) for w in d.get('words', [])], True)
+
+    def text_region(d, extra=False):
+        return node('region', d, [text_region(x) for x in d.get('text_regions', [])] + [line(x) for x in d.get('lines', [])]
+                    + [table(x) for x in d.get('table_regions', [])], True, extra)
+
+    def table(d):
+        return node('table', d, [node('row', r, [node('cell', c, [line(x) for x in c.get('lines', [])])
+                                                 for c in r.get('cells', [])]) for r in d.get('rows', [])])
+
+    def regions(d):
+        return [text_region(x) for x in d.get('text_regions', [])] + [table(x) for x in d.get('table_regions', [])]
+
+    def column(d):
+        return node('column', d, regions(d) + [line(x) for x in d.get('lines', [])])
+
+    def container(d):
+        return [column(x) for x in d.get('columns', [])] + regions(d) + [line(x) for x in d.get('lines', [])]
+
+    def page(d):
+        return node('page', d, [text_region(x, True) for x in d.get('extra', [])] + container(d))
+
+    def scan(d):
+        return node('scan', d, [page(x) for x in d.get('pages', [])] + container(d))
+
+    t = j['type']
+    if 'scan' in t:
+        return scan(j)
+    if 'page' in t:
+        return page(j)
+    if 'column' in t:
+        return column(j)
+    if 'text_region' in t:
+        return text_region(j)
+    if 'line' in t:
+        return line(j)
+    return node('word', j, [], True)
+
+
 def follow(root, path):
     o = root
     for attr, i in path:
@@ -964,16 +1103,31 @@ def pre_ok(dump: List[Dict[str, Any]], op: Dict[str, Any]) -> bool:
     free = lambda c: not cont.get(c)  # noqa
     only_by = lambda c, p: all(x == p for x in cont.get(c, []))  # noqa
     not_scan = lambda c: dump[c]['cls'] != 'scan'  # noqa
+    def below(n, root):
+        """n is root or sits below root (child lists of the real objects)"""
+        todo, seen = [root], set()
+        while todo:
+            x = todo.pop()
+            if x == n:
+                return True
+            if x in seen or x is None or x < 0:
+                continue
+            seen.add(x)
+            for name in DUMP_LISTS.values():
+                todo.extend(dump[x][name])
+        return False
     k = op['op']
     if k == 'addChild':
-        return free(op['c']) and not_scan(op['c'])
+        # … and never below itself: add_child of the container itself or of one of its ancestors closes a cycle
+        return free(op['c']) and not_scan(op['c']) and not below(op['p'], op['c'])
     if k == 'setParent':
         return only_by(op['c'], op['p']) and not_scan(op['c'])
     if k == 'setAsParent':
         return all(only_by(c, op['p']) and not_scan(c) for c in op.get('cs', []))
     if k in ('attachLines', 'attachRegions', 'attachRows'):
         return (free(op['p']) and not_scan(op['p'])
-                and all(only_by(c, op['p']) and not_scan(c) for c in op.get('cs', [])))
+                and all(only_by(c, op['p']) and not_scan(c) for c in op.get('cs', []))
+                and all(c != op['p'] for c in op.get('cs', [])))
     if k == 'removeType':
         return all(t not in [MAIN[dump[op['n']]['cls']]] + GENERIC for t in op['ts'])
     if k.startswith('mk'):
@@ -1013,18 +1167,25 @@ class C02(Check):
     }
     level_note = ('proved in Lean for every history of the modelled operations that meets the decidable precondition Pre '
                   '(unbounded length and object count): links + provenance keys (C02_linked), scan id below a scan incl. late '
-                  'add_child and the table structure (C02_scan_tagged), main type + generic tags (C02_typed), forest shape, '
-                  'type-tag algebra (add idempotent, remove makes absent on duplicate-free lists, types is a set). '
-                  'Not proved: that set_scan_id / set_parentage never run out of fuel on a forest (theorems are conditional on '
-                  'step = ok; the correspondence never saw an out-of-fuel answer); that the parser\'s and the JSON builders\' call '
-                  'sequences meet Pre for EVERY document (C02_parse_linked / C02_json_linked of DESIGN §7 are replaced by: the model '
-                  'evaluates Pre on the history of every generated document and the check fails if it is false)')
+                  'add_child and the table structure (C02_scan_tagged), main type + generic tags (C02_typed), forest shape, no '
+                  'cycles (C02_acyclic), depth <= number of objects (C02_depth_le_size), hence set_scan_id / set_parentage never '
+                  'run out of their fuel size+1 and no disciplined operation fails (C02_fuel_suffices, C02_run_total), type-tag '
+                  'algebra.  C02_parse_linked / C02_json_linked: the operation sequences of the XML parser (PScan.hist), of the '
+                  'JSON builders (JTree.hist true) and of bottom-up construction (JTree.hist false) are defined in the model as '
+                  'functions of the document tree and PROVED, for every tree, to meet Pre at every step and to end in a store '
+                  'satisfying the invariant - also next to documents that exist already.  Tie: the model-defined history of every '
+                  'generated parse / JSON case is run by the driver and its final store compared with the dump of the real parsed / '
+                  'rebuilt objects; the harness\'s own replay list (spec_to_history / json_history) is kept as a second witness.  '
+                  'Not proved: that the real parser and builders perform exactly these sequences (that is what the comparison '
+                  'samples); in the parser history the cells of a table are created grouped by row (make_rows_from_cells groups '
+                  'them; documents listing one row\'s cells non-contiguously differ in creation order only)')
     assumptions = [
         'histories are sequences of the modelled operations (constructors, add_child, set_parent, set_as_parent, '
         'the parser\'s attach statements, set_parentage, add_type/remove_type, has_type/types); attributes are not '
         'assigned behind the model\'s back and no reading order is passed to constructors',
         'the link clauses are claimed for histories that keep the structure a forest: a child is attached only while '
-        'no container lists it, and a scan is never attached as a child (decidable precondition `Pre`, evaluated by '
+        'no container lists it and never below itself (no add_child of the container itself or of one of its ancestors), '
+        'and a scan is never attached as a child (decidable precondition `Pre`, evaluated by '
         'the model on every correspondence history); for other histories the model still mirrors the code '
         '(last writer wins) but no invariant is claimed',
         'custom-attribute parsing (C11) and the JSON view (C06) only supply initial metadata / constructor arguments',
@@ -1081,7 +1242,13 @@ class C02(Check):
                 return {'err': err_name(e)}
             w = World()
             w.objs = [follow(scan, p) for p in paths]
-            return {'final': w.dump()}
+            out = {'final': w.dump()}
+            # the same parsed objects, numbered in the order the MODEL's parser history creates them
+            _, lean_paths = spec_to_tree(spec)
+            w2 = World()
+            w2.objs = [follow(scan, p) for p in lean_paths]
+            out['final_tree'] = w2.dump()
+            return out
         if case.kind == 'json':
             from pagexml.parser import parse_pagexml_from_json
             w = World()
@@ -1095,7 +1262,7 @@ class C02(Check):
             except Exception as e:  # noqa
                 return {'err': err_name(e)}
             w.objs = w.objs + [follow(new, p) for p in paths]
-            res = {'final': w.dump(), 'rebuild_ops': ops}
+            res = {'final': w.dump(), 'rebuild_ops': ops, 'tree': json_tree(json.loads(text))}
             _JSON_CACHE[id(case)] = res
             return res
         raise ValueError(case.kind)
@@ -1106,13 +1273,16 @@ class C02(Check):
             return [{'p': 'C02', 'op': 'history', 'args': {'ops': case.input['ops']}}]
         if case.kind == 'parse':
             ops, _ = spec_to_history(case.input['spec'])
-            return [{'p': 'C02', 'op': 'final', 'args': {'ops': ops}}]
+            tree, _ = spec_to_tree(case.input['spec'])
+            return [{'p': 'C02', 'op': 'final', 'args': {'ops': ops}},
+                    {'p': 'C02', 'op': 'tree', 'args': {'mode': 'parse', 'ops': [], 'tree': tree}}]
         if case.kind == 'json':
             # the rebuild operations are derived from the JSON text the real code produced
             o = _JSON_CACHE.get(id(case)) or self.impl(case)
             if 'rebuild_ops' not in o:
                 return []
-            return [{'p': 'C02', 'op': 'final', 'args': {'ops': case.input['ops'] + o['rebuild_ops']}}]
+            return [{'p': 'C02', 'op': 'final', 'args': {'ops': case.input['ops'] + o['rebuild_ops']}},
+                    {'p': 'C02', 'op': 'tree', 'args': {'mode': 'json', 'ops': case.input['ops'], 'tree': o['tree']}}]
         return []
 
     def compare(self, case, impl_out, model_out):
@@ -1148,7 +1318,23 @@ class C02(Check):
             return None if impl_out.get('err') == m.get('err') else f'impl={impl_out.get("err")} model={m.get("err")}'
         if not m.get('pre'):
             return f'the {case.kind} history does not meet the precondition of the invariants'
-        return diff_dumps(impl_out['final'], model_dump(m['ok']))
+        d = diff_dumps(impl_out['final'], model_dump(m['ok']))
+        if d:
+            return d
+        # the history the MODEL defines for this document tree (`PScan.hist` / `JTree.hist true`, the functions the
+        # theorems C02_parse_linked / C02_json_linked speak about) must build the same objects
+        if len(model_out) > 1:
+            mt = model_out[1]
+            if 'ok' not in mt:
+                return f'model history of the document tree answered {str(mt)[:200]}'
+            if not mt.get('valid'):
+                return 'the document tree is outside the theorem (a row without cells)'
+            if not mt.get('pre'):
+                return f'the model-defined {case.kind} history does not meet Pre (contradicts C02_{case.kind}_linked)'
+            d = diff_dumps(impl_out.get('final_tree', impl_out['final']), model_dump(mt['ok']))
+            if d:
+                return f'model-defined {case.kind} history: {d}'
+        return None
 
     # ------------------------------------------------------------------ oracle
     def oracle(self, case: Case, out: Any) -> List[Finding]:
